@@ -1,7 +1,8 @@
 #!/venv/bin/python
 """Round 2: rebase every delivered change in /tmp/wt-CNN/OUT onto /repo HEAD (fix commits landed since it was written),
 confirm it there (suite unchanged, demo fails with / passes without), run every check with it applied to /repo, undo it, and
-store it under /verif/seeded/<CNN>-r2m<k>/.  usage: seed_store2.py [CNN ...]"""
+store it under /verif/seeded/<CNN>-r<ROUND>m<k>/.  usage: [ROUND=3] seed_store2.py [CNN ...]
+The first evaluation of a change records whether the property's own check fired then (detected_on_first_evaluation); later runs keep it."""
 import json, os, shutil, subprocess, sys
 
 INITIAL = {'C01-r2m1', 'C07-r2m1', 'C07-r2m2', 'C04-r2m1', 'C04-r2m2', 'C02-r2m1', 'C13-r2m1', 'C13-r2m2', 'C19-r2m2', 'C09-r2m2',
@@ -13,6 +14,7 @@ def sh(cmd, cwd=None, env=None):
     return r.returncode, r.stdout + r.stderr
 
 
+ROUND = os.environ.get('ROUND', '2')
 head = sh('git -C /repo rev-parse HEAD')[1].strip()
 assert sh('git -C /repo status --short')[1].strip() == '', 'repo not clean'
 pids = sys.argv[1:] or ['C%02d' % i for i in range(1, 20)]
@@ -25,7 +27,7 @@ for pid in pids:
         src = '%s/OUT/m%d.diff' % (wt, k)
         if not os.path.exists(src):
             continue
-        sid = '%s-r2m%d' % (pid, k)
+        sid = '%s-r%sm%d' % (pid, ROUND, k)
         demo = '%s/OUT/m%d_demo.py' % (wt, k)
         sh('git checkout -q -- . ; git reset -q --hard ; git checkout -q --detach %s' % head, cwd=wt)
         env = dict(os.environ, PYTHONPATH=wt)
@@ -78,14 +80,18 @@ for pid in pids:
         os.makedirs(sd, exist_ok=True)
         open(sd + '/patch.diff', 'w').write(patch)
         shutil.copy(demo, sd + '/demo.py')
-        meta = {'id': sid, 'round': 2, 'property': pid,
-                'origin': 'independent sub-agent given only the property text and a scratch worktree (second round)',
+        first = sid in INITIAL
+        if ROUND != '2':
+            mp_ = '/verif/seeded/%s/meta.json' % sid
+            first = json.load(open(mp_))['detected_on_first_evaluation'] if os.path.exists(mp_) else own
+        meta = {'id': sid, 'round': int(ROUND), 'property': pid,
+                'origin': 'independent sub-agent given only the property text and a scratch worktree (round %s)' % ROUND + '',
                 'patch_applied': how,
                 'summary': note.get('summary'), 'breaks': note.get('breaks'), 'needs_to_manifest': note.get('needs_to_manifest'),
                 'why_tests_pass': note.get('why_tests_pass'), 'files': note.get('files'),
                 'confirmed_by': {'repo_head': head, 'suite_with_change': suite, 'demo_exit_without_change': rc0,
                                  'demo_exit_with_change': rc1, 'demo_tail': out1.strip().splitlines()[-2:]},
-                'detected_on_first_evaluation': sid in INITIAL,
+                'detected_on_first_evaluation': first,
                 'checks_firing': {c: v['lines'][:2] for c, v in caught.items()},
                 'detected_by_own_check': own, 'detected_by': det, 'analysis_errors': err}
         json.dump(meta, open(sd + '/meta.json', 'w'), indent=1)
